@@ -18,6 +18,8 @@
 From Soy Require Import Proofs.SourceTieChecker.
 From Soy Require Import Model.Bytes Model.Num Model.Values Model.Outcome Model.Ast Model.Interp Model.RefView Model.Checker
   Spec.Wf Proofs.CheckerProofs Proofs.CheckerInterpProofs.
+From Coq Require Import Permutation.
+From Soy Require Import Model.Compile Proofs.CheckerCompileTie.
 Open Scope N_scope.
 
 (* ------------------------------------------------------------------ *)
@@ -46,6 +48,19 @@ Proof. exact loop_func_names_table. Qed.
 Theorem C07_header_param_optional : forall opt has_default has_type,
   Generated.Tables.header_param_optional opt has_default has_type = opt.
 Proof. exact header_param_optional_spec. Qed.
+
+(* There are two hand-written models of parsepasses.CheckDataRefs: Model/Checker.v (this property: over the
+   view of RefView.v) and Model/Compile.v (C13: fuel recursion over ast nodes through Children(), with the Go
+   map order of MapLiteralNode.Children as the parameter ko0, sorted since b9a4d3a).  They are the same
+   function: same verdict, same class of error, on every registry whose map literals list their items by
+   strictly increasing key (what the parser builds and the AST dump transmits), for every map iteration order. *)
+Theorem C07_checker_models_agree : forall ko0 reg,
+  (forall ks, Permutation (ko0 ks) ks) ->
+  forallb (fun t => maps_sorted (t_node t)) (r_templates reg) = true ->
+  verdict_of_failure (first_failure (check_template (sorted_after ko0) (find_template (r_templates reg))) (r_templates reg))
+  = check_registry reg.
+Proof. exact check_data_refs_models_agree. Qed.
+Print Assumptions C07_checker_models_agree.
 
 (* ------------------------------------------------------------------ *)
 (* 2. static scoping is sound for the scope stack *)
@@ -138,6 +153,18 @@ Example C07_nonvacuous_reject :
   (* soydoc and header params *) /\ bad (NHeaderParam 0 false (b "h") (b "int") None :: pr (ref "h") :: ex_t_body) = (Reject RBothParamKinds, false)
   (* param used only under a same-named let: unused *)
                                  /\ bad [NLetValue 0 (b "p") (NInt 0 1); pr (ref "p")] = (Reject RUnusedParam, false).
+Proof. vm_compute. repeat split; reflexivity. Qed.
+
+(* the hypotheses of C07_checker_models_agree hold of a bundle with a map literal (keys listed in order), for a
+   map iteration order that is not the identity; both models accept it, and both reject the same violation *)
+Example C07_models_agree_nonvacuous :
+  let lit := NMapLit 0 [(b "a", ref "p"); (b "b", NInt 0 1)] in
+  let reg body := c_reg (ex_cfg body) in
+  let c13 body := first_failure (check_template (sorted_after (@rev bstr)) (find_template (r_templates (reg body)))) (r_templates (reg body)) in
+  forallb (fun t => maps_sorted (t_node t)) (r_templates (reg [pr lit])) = true
+  /\ c13 [pr lit] = None /\ check_registry (reg [pr lit]) = Accept
+  /\ verdict_of_failure (c13 [pr lit; pr (ref "zz")]) = Reject RUnbound /\ check_registry (reg [pr lit; pr (ref "zz")]) = Reject RUnbound
+  /\ maps_sorted (NMapLit 0 [(b "b", NInt 0 1); (b "a", NInt 0 2)]) = false.
 Proof. vm_compute. repeat split; reflexivity. Qed.
 
 (* K3 of the defect ledger, repaired by cb3f9df: a param referenced before a same-named let is used *)
